@@ -259,7 +259,8 @@ def class_attrs(run, twin=None):
     run.concretise = lambda model, ob: {'input': 'class D(Base) overriding a method', 'script': ATTR_REPLAY % {'repo': core.REPO}}
     fam = BaseFamily('bases', ['class'])
     own = Src(z3.Bool('own_body_has_k'), 'own class body')
-    f = loader.load('supp.name', 'ClassObject._attrs', cuts={0: chain_loopspec('attrs', fam, 'class', ('b',))}, displays={'dict': Overlay})
+    f = loader.load('supp.name', 'ClassObject._attrs', cuts={0: chain_loopspec('attrs', fam, 'class', ('b',))}, displays={'dict': Overlay},
+                    stubs={'dict': lambda x=None: Overlay() if x is None else (x.copy() if isinstance(x, Proxy) else dict(x))})
 
     class Self(object):
         bases = BaseList(fam)
@@ -523,5 +524,9 @@ def method_self(run):
         prove('other-parameters-unknown', fs.get_argument(None, a1) is None, path=path)
         fs2 = S.FuncScope.__new__(S.FuncScope)
         fs2.parent = S.SourceScope.__new__(S.SourceScope)
-        prove('plain-function-first-parameter-unknown', fs2.get_argument(None, a0) is None, path=path)
+        try:
+            r = fs2.get_argument(None, a0)
+        except Exception as e:
+            r = e
+        prove('plain-function-first-parameter-unknown', r is None, clause='only methods bind their first parameter to an instance [%r]' % (r,), path=path)
     core.explore(lambda: None, lambda p, out: go(p))
